@@ -5,7 +5,7 @@
 # On success copies patch.diff, demo.py, meta.json (+ confirmation record) to /verif/seeded/<name>/.
 src=$1; name=$2
 wt=$(mktemp -d /tmp/seedconfirm.XXXXXX)
-git -C /repo worktree add --detach $wt HEAD >/dev/null 2>&1 || exit 3
+git -C /repo worktree add --detach $wt ${BASE:-HEAD} >/dev/null 2>&1 || exit 3
 cleanup() { git -C /repo worktree remove --force $wt; }
 cd $wt
 /venv/bin/python $src/out/demo.py >/dev/null 2>&1; d0=$?
@@ -28,12 +28,12 @@ missing = sorted(stable - ok)
 print(json.dumps({'stable_passed': len(stable & ok), 'stable_missing': missing}))
 PY
 )
-echo "$name: demo_unchanged_exit=$d0 demo_changed_exit=$d1 tests=$res head=$(git -C /repo log --format=%h -1)"
+echo "$name: demo_unchanged_exit=$d0 demo_changed_exit=$d1 tests=$res head=$(git -C $wt log --format=%h -1)"
 case "$res" in *'"stable_missing": []'*) tests_ok=1;; *) tests_ok=0;; esac
 if [ $d0 -eq 0 ] && [ $d1 -eq 1 ] && [ $tests_ok -eq 1 ]; then
   mkdir -p /verif/seeded/$name
   cp $src/out/patch.diff $src/out/demo.py /verif/seeded/$name/
-  /venv/bin/python - $src/out/meta.json /verif/seeded/$name/meta.json "$d0" "$d1" "$res" "$(git -C /repo log --format=%h -1)" <<'PY'
+  /venv/bin/python - $src/out/meta.json /verif/seeded/$name/meta.json "$d0" "$d1" "$res" "$(git -C $wt log --format=%h -1)" <<'PY'
 import sys, json
 m = json.load(open(sys.argv[1]))
 m['confirmed'] = {'by': 'tools/confirm_seed.sh on a fresh scratch worktree of /repo', 'repo_head': sys.argv[6],
